@@ -637,6 +637,12 @@ class Gen:
             cases.insert(rng.below(len(cases) + 1), dflt)
             if rng.chance(1, 3) and cases[0]["sel"] != ["default"]:
                 cases[0]["body"].append({"s": "break"})
+            elif rng.chance(1, 4):
+                # every selector clause ends in `break;`; the default clause too only on request: a switch ALL of whose
+                # clauses end by leaving it is a recorded SPIR-V finding (spv-switch-all-break-merge-unreachable)
+                for cs in cases:
+                    if cs["sel"] != ["default"] or self.o.get("switch_all_break"):
+                        cs["body"].append({"s": "break"})
             if self.o["switch_tail_if"]:
                 self._switch_tail_if(env, cases, in_loop)
             if self.o.get("switch_multi") or self.o.get("switch_calls"):
